@@ -103,4 +103,34 @@ theorem cross_triple_splice_negative :
     ¬ (.libc = Triple.conf ∨ ∀ op, op ∈ ops.map POp.toOp → ListHistory.isSplice op = false) := by
   decide
 
+/-! ## per-triple release, as a statement about counts along histories
+
+Nodes do not carry their allocator triple in these models, so "every node is released through the triple it was allocated on"
+is stated as the exact per-triple balance: along every history (no splice across triples) the number of live blocks of each
+allocator is what it was at the start plus the number of nodes the two lists currently hold **through that triple** — no block
+of a triple is released through, or charged to, the other one, on the refusal paths included (a wrong `free` would make the
+two counters drift apart, cf. `cross_triple_splice_negative`). -/
+
+/-- **doubly linked, pointer-level histories from `new`**: `liveT t = initial + (size of the lists on triple t)` for both triples -/
+theorem dlist_history_per_triple (P : Params) (t1 t2 : Triple) (ops : List POp) (m : Mem)
+    (hc : t1 = t2 ∨ ∀ op, op ∈ ops.map POp.toOp → ListHistory.isSplice op = false) (t : Triple) :
+    (PList.prun P (C04PList.fresh t1 t2) ops m).2.2.liveT t =
+      m.liveT t + ((if (PList.prun P (C04PList.fresh t1 t2) ops m).2.1.l1.triple = t then (PList.prun P (C04PList.fresh t1 t2) ops m).2.1.l1.size else 0) +
+                   (if (PList.prun P (C04PList.fresh t1 t2) ops m).2.1.l2.triple = t then (PList.prun P (C04PList.fresh t1 t2) ops m).2.1.l2.size else 0)) := by
+  obtain ⟨c1, c2, I, e⟩ := PList.prun_refines P ops (C04PList.fresh t1 t2) [] [] m (C04PList.fresh_inv t1 t2)
+  have e0 : PList.absPair (C04PList.fresh t1 t2) [] [] = (ofList t1 [], ofList t2 []) := rfl
+  rw [e0] at e
+  have hp : ListHistory.PairOk (ofList t1 [], ofList t2 []) m :=
+    ⟨ofList_inv _, ofList_inv _, fun t => by
+      simp only [ListHistory.owned, ownedBy, ofList_abs, ofList_triple, List.length_nil]
+      by_cases x1 : t1 = t <;> by_cases x2 : t2 = t <;> simp [x1, x2]⟩
+  have hl := C04.dlist_history_ledger P (ops.map POp.toOp) (ofList t1 [], ofList t2 []) m hp hc t
+  have h0 : ListHistory.owned (ofList t1 [], ofList t2 []) t = 0 := by
+    simp only [ListHistory.owned, ownedBy, ofList_abs, ofList_triple, List.length_nil]
+    by_cases x1 : t1 = t <;> by_cases x2 : t2 = t <;> simp [x1, x2]
+  rw [h0, e] at hl
+  simp only [ListHistory.owned, ownedBy, PList.absPair, ofList_abs, ofList_triple, PList.dataOf_length] at hl
+  rw [I.rep.r1.size, I.rep.r2.size]
+  omega
+
 end CC.Properties.C06PList
